@@ -4,6 +4,7 @@ package scen
 
 import (
 	"context"
+	"errors"
 	"fmt"
 	"time"
 
@@ -165,3 +166,47 @@ func ErrStr(err error) string {
 
 // Tagf formats.
 func Tagf(f string, a ...interface{}) string { return fmt.Sprintf(f, a...) }
+
+// CertifyStuck reports whether the connection made no progress at all between
+// two samples taken a generous interval apart: no new trace event and no byte
+// consumed. It is used to turn a fired watchdog into a verdict only when the
+// system is demonstrably quiescent (otherwise the result is inconclusive).
+func CertifyStuck(tr *memnet.Trace, conn *memnet.Conn) bool {
+	sample := func() (int, int64, int) {
+		tr.Mu.Lock()
+		defer tr.Mu.Unlock()
+		return len(tr.Events), conn.Consumed, conn.Writes
+	}
+	e1, c1, w1 := sample()
+	time.Sleep(500 * time.Millisecond)
+	e2, c2, w2 := sample()
+	return e1 == e2 && c1 == c2 && w1 == w2
+}
+
+// IsDeadline reports whether err is (wraps) a context deadline.
+func IsDeadline(err error) bool {
+	return err != nil && errors.Is(err, context.DeadlineExceeded)
+}
+
+// AckFor returns the acknowledgement a conforming broker sends for p (nil if none).
+func AckFor(p *mqttref.Packet) []byte {
+	switch p.Type {
+	case mqttref.PUBLISH:
+		if p.QoS == 1 {
+			return mqttref.EncAck(mqttref.PUBACK, p.ID)
+		} else if p.QoS == 2 {
+			return mqttref.EncAck(mqttref.PUBREC, p.ID)
+		}
+	case mqttref.PUBREL:
+		return mqttref.EncAck(mqttref.PUBCOMP, p.ID)
+	case mqttref.SUBSCRIBE:
+		codes := make([]byte, len(p.Subs))
+		for i, sb := range p.Subs {
+			codes[i] = sb.QoS
+		}
+		return mqttref.EncSubAck(p.ID, codes)
+	case mqttref.UNSUBSCRIBE:
+		return mqttref.EncAck(mqttref.UNSUBACK, p.ID)
+	}
+	return nil
+}
